@@ -197,15 +197,23 @@ def evaluate(spec, case, impl_entry, model_entry):
     ilines, imeta = impl_entry
     if any(m.startswith("#harness-panic") or m.startswith("#unknown-middleware") for _, m in imeta):
         ctx.infra = "harness: " + ";".join(m for _, m in imeta if not m.startswith("#fp") and not m.startswith("#drop"))
+    pinned = None
     for name, fn in spec.get("monitors", []):
         try:
             msg = fn(case, ilines, imeta)
         except Exception as e:  # a monitor crash is an infrastructure problem, reported as such
             msg = None
             ctx.infra = "monitor %s crashed: %r" % (name, e)
+        if msg and msg.startswith("PINNED:"):
+            # an oracle that pins a choice of the model (e.g. the exact RNG draw scheme) rather than a clause of the
+            # property: its failure is a broken correspondence, not a failing input
+            pinned = pinned or (name, msg)
+            continue
         if msg:
             ctx.monitor = (name, msg)
             break
+    if pinned and not ctx.monitor:
+        ctx.disagree = (0, "<reference oracle %s>" % pinned[0], pinned[1][:300])
     if model_entry is None:
         ctx.disagree = (0, "<model produced no output>", ilines[0] if ilines else "")
     else:
